@@ -71,6 +71,16 @@ GROUPS["bvd_core"]["features"] = "#![feature(allocator_api)]"
 GROUPS["bvd_shift"] = G("bvd_shift", BVD_PRELUDE, BVD_BASE + stub(BVD_CORE) + verify(["bvd.shl_assign", "bvd.shr_assign"]))
 GROUPS["bvd_shift"]["features"] = "#![feature(allocator_api)]"
 
+GROUPS["bvd_rot"] = G("bvd_rot", BVD_PRELUDE + ["rot.rs"], BVD_BASE + stub(BVD_CORE) + verify(["bvd.rotl", "bvd.rotr"]))
+GROUPS["bvd_rot"]["features"] = "#![feature(allocator_api)]"
+
+BVD_COUNT = ["bvd.leading_zeros", "bvd.leading_ones", "bvd.trailing_zeros", "bvd.trailing_ones"]
+GROUPS["bvd_count"] = G("bvd_count", BVD_PRELUDE, BVD_BASE + stub(BVD_CORE) + verify(BVD_COUNT))
+GROUPS["bvd_count"]["features"] = "#![feature(allocator_api)]"
+
+GROUPS["bvd_misc"] = G("bvd_misc", BVD_PRELUDE, BVD_BASE + stub(BVD_CORE) + verify(["bvd.shl_in", "bvd.shr_in", "bvd.not"]))
+GROUPS["bvd_misc"]["features"] = "#![feature(allocator_api)]"
+
 # -------------------------------------------------------------------------------------------------
 # property -> jobs
 TYPES6 = ["u8", "u16", "u32", "u64", "u128", "usize"]
